@@ -1103,6 +1103,8 @@ class Engine:
 				self.oblige(st, site, f'after#{i}', self.pure(cl, st))
 
 	def _iter_bounds(self, it):
+		if hasattr(it, 'iter_bounds'):
+			return it.iter_bounds()
 		if isinstance(it, SRange):
 			if it.step != 1:
 				raise Unsupported('range with a step other than 1')
@@ -1116,6 +1118,9 @@ class Engine:
 		raise Unsupported(f'iteration over {it!r}')
 
 	def _iter_item(self, st, it, c):
+		if hasattr(it, 'iter_item'):
+			yield st, it.iter_item(c)
+			return
 		if isinstance(it, SRange):
 			yield st, SInt(c.term, it.ctype)
 		elif isinstance(it, SSeq):
@@ -2534,10 +2539,34 @@ class Engine:
 		pc0 = len(s1.pc)
 		heap0 = dict(s1.heap)
 		saved_env = dict(s1.env)
-		outs = []
-		for sa, item in self._iter_item(s1, itv, SInt(j)):
-			for sc, v in elem(sa, item):
-				outs.append((sc, v))
+		ghosts0 = dict(st.ghosts)
+
+		def run_elem(state):
+			res = []
+			for sa, item in self._iter_item(state, itv, SInt(j)):
+				for sc, v in elem(sa, item):
+					res.append((sc, v))
+			return res
+		outs = run_elem(s1.fork())
+		# allocation counters advanced by the element computation (library models handing out object ids): element j must see
+		# the counter advanced by the j earlier elements, so the element is evaluated again with the counter offset by (j - start) * delta
+		deltas = {}
+		norm0 = [(s, v) for s, v in outs if not isinstance(v, Raised)]
+		if len(norm0) == 1:
+			for g, v0 in ghosts0.items():
+				v1 = norm0[0][0].ghosts.get(g)
+				if isinstance(v0, SInt) and isinstance(v1, SInt) and not v1.term.eq(v0.term):
+					d_ = z3.simplify(v1.term - v0.term)
+					if not z3.is_int_value(d_):
+						raise Unsupported('element computation advances a counter by a symbolic amount')
+					deltas[g] = d_.as_long()
+		if deltas:
+			s1b = s1.fork()
+			for g, d_ in deltas.items():
+				s1b.ghosts[g] = SInt(ghosts0[g].term + (j - start) * d_)
+			outs = run_elem(s1b)
+		else:
+			s1b = s1
 		normal = [(s, v) for s, v in outs if not isinstance(v, Raised)]
 		raised = [(s, v) for s, v in outs if isinstance(v, Raised)]
 		for s, v in raised:
@@ -2582,8 +2611,26 @@ class Engine:
 		collect(body)
 		newc = [c for c in newc if not c.eq(R.arr) and not c.eq(R.length)]
 		inner = z3.Exists(newc, body) if newc else body
+		count = z3.If(stop >= start, stop - start, 0)
+		# ghost arrays updated by the element computation: a single store per element is lifted to all elements
+		for g, v0 in ghosts0.items():
+			v1 = s2.ghosts.get(g)
+			if g in deltas:
+				st.ghosts[g] = SInt(v0.term + count * deltas[g])
+				continue
+			if z3.is_expr(v0) and z3.is_array(v0) and v1 is not None and not v1.eq(v0):
+				if not (z3.is_app_of(v1, z3.Z3_OP_STORE) and v1.arg(0).eq(v0)):
+					raise Unsupported(f'element computation updates ghost {g} by more than one store')
+				idx_j, val_j = v1.arg(1), v1.arg(2)
+				A = z3.Const(fresh_name(g), v0.sort())
+				x = z3.Const(fresh_name('x'), v0.sort().domain())
+				hit = z3.Exists([j] + newc, z3.And(start <= j, j < stop, body, x == idx_j)) if newc else z3.Exists([j], z3.And(start <= j, j < stop, body, x == idx_j))
+				body = z3.And(body, z3.Select(A, idx_j) == val_j)
+				inner = z3.Exists(newc, body) if newc else body
+				st.assume(z3.ForAll([x], z3.Implies(z3.Not(hit), z3.Select(A, x) == z3.Select(v0, x))))
+				st.ghosts[g] = A
 		st.assume(z3.ForAll([j], z3.Implies(z3.And(start <= j, j < stop), inner)))
-		st.assume(R.length == z3.If(stop >= start, stop - start, 0))
+		st.assume(R.length == count)
 		ref = Ref('list')
 		st.heap[ref.addr] = R
 		yield st, ref
